@@ -27,6 +27,7 @@ func init() {
 			ruleC13F7(r)
 			ruleLoopDrivers(r, "F8", "the scheduler poll stays periodic: in package transport/multi every receive inside a loop from a time source is a Ticker, a time.After, or a Timer that is re-armed inside the loop when its branch continues the loop", func(fn *ssa.Function) bool { return fnPkgPath(fn) == modPath+"/transport/multi" }, 1)
 			ruleNoSwallowedErrors(r, "F9", 20, true, "/transport/websocket", "/transport/websocket/", "/transport/quic", "/transport/webtransport", "/transport/compress", "/transport")
+			ruleCounterDirection(r, "F10", "/transport/websocket", "/transport/quic", "/transport/webtransport", "/transport")
 		},
 	})
 }
